@@ -137,3 +137,69 @@ pub fn finish(rep: Report) -> i32 {
     }
     rep.finish()
 }
+
+/// Run the same check in a separately built binary (another crypto back end) and fold its evidence in.
+/// Its VIOLATION / KNOWN-FINDING lines go to our stdout unchanged.
+pub fn run_child(rep: &mut Report, backend: &str, prop: &str, tier: &str) {
+    if std::env::var("VERIF_CHILD").is_ok() || replay().is_some() {
+        return;
+    }
+    let root = verif_root();
+    let bin = root.join("harness/target").join(backend).join("release/vcheck");
+    let out = root.join("out").join(format!("child-{}-{}-{}.json", prop, backend, std::process::id()));
+    let _ = std::fs::create_dir_all(root.join("out"));
+    let status = std::process::Command::new(&bin).arg(prop).arg(tier).env("VERIF_CHILD", backend).env("VERIF_EVIDENCE_OUT", &out).status();
+    match status {
+        Err(e) => rep.machinery_error(format!("cannot run {} ({}): {}", bin.display(), backend, e)),
+        Ok(st) => {
+            let code = st.code().unwrap_or(134);
+            let ev: Value = std::fs::read_to_string(&out).ok().and_then(|t| serde_json::from_str(&t).ok()).unwrap_or(Value::Null);
+            let _ = std::fs::remove_file(&out);
+            if ev.is_null() {
+                rep.machinery_error(format!("child run {} left no evidence (exit {})", backend, code));
+            } else {
+                rep.children.push((backend.to_string(), code, ev));
+            }
+        }
+    }
+}
+
+pub struct ChildRun {
+    backend: String,
+    handle: Option<std::thread::JoinHandle<Result<(i32, Value), String>>>,
+}
+
+/// Start the same check in another back end's binary concurrently; `join_children` folds the results in.
+pub fn spawn_child(backend: &str, prop: &str, tier: &str) -> ChildRun {
+    if std::env::var("VERIF_CHILD").is_ok() || replay().is_some() {
+        return ChildRun { backend: backend.to_string(), handle: None };
+    }
+    let (b, p, t) = (backend.to_string(), prop.to_string(), tier.to_string());
+    let handle = std::thread::spawn(move || {
+        let root = verif_root();
+        let bin = root.join("harness/target").join(&b).join("release/vcheck");
+        let out = root.join("out").join(format!("child-{}-{}-{}.json", p, b, std::process::id()));
+        let _ = std::fs::create_dir_all(root.join("out"));
+        let st = std::process::Command::new(&bin).arg(&p).arg(&t).env("VERIF_CHILD", &b).env("VERIF_EVIDENCE_OUT", &out).env("RAYON_NUM_THREADS", "8").status().map_err(|e| format!("cannot run {}: {}", bin.display(), e))?;
+        let code = st.code().unwrap_or(134);
+        let ev: Value = std::fs::read_to_string(&out).ok().and_then(|t| serde_json::from_str(&t).ok()).unwrap_or(Value::Null);
+        let _ = std::fs::remove_file(&out);
+        if ev.is_null() {
+            return Err(format!("child run {} left no evidence (exit {})", b, code));
+        }
+        Ok((code, ev))
+    });
+    ChildRun { backend: backend.to_string(), handle: Some(handle) }
+}
+
+pub fn join_children(rep: &mut Report, children: Vec<ChildRun>) {
+    for c in children {
+        if let Some(h) = c.handle {
+            match h.join() {
+                Ok(Ok((code, ev))) => rep.children.push((c.backend, code, ev)),
+                Ok(Err(e)) => rep.machinery_error(e),
+                Err(_) => rep.machinery_error(format!("child thread for {} panicked", c.backend)),
+            }
+        }
+    }
+}
